@@ -204,8 +204,8 @@ def build_state_unit(ctx):
     pick_decl(ctx, STATEIMPL_H, "PerSubsystemInfo", r"mutable Array_<CacheEntryInfo>\s+cacheInfo;", "cacheInfo (Array_ -> C array + length)")
     pick_decl(ctx, STATEIMPL_H, "PerSubsystemInfo", r"Array_<DiscreteVarInfo>\s+discreteInfo;", "discreteInfo (Array_ -> C array + length)")
     P.append("struct PerSubsystemInfo {\n%s\n"
-             "  struct CacheEntryInfo* cacheInfo; int cacheInfo_size;       /* Array_<CacheEntryInfo> */\n"
-             "  struct DiscreteVarInfo* discreteInfo; int discreteInfo_size; /* Array_<DiscreteVarInfo> */\n};\n" % "\n".join(ss_decls))
+             "  int cacheInfo_size;    struct CacheEntryInfo* g_ce;   /* Array_<CacheEntryInfo> cacheInfo: ghost length + GHOST element [ghost_c] */\n"
+             "  int discreteInfo_size; struct DiscreteVarInfo* g_dv;  /* Array_<DiscreteVarInfo> discreteInfo: ghost length + GHOST element [ghost_d] */\n};\n" % "\n".join(ss_decls))
     si_decls, si_init = members("StateImpl", [
         (r"mutable Stage\s+currentSystemStage\{", "currentSystemStage"),
         (r"mutable StageVersion\s+systemStageVersions\[Stage::NValid\];", "systemStageVersions"),
@@ -216,7 +216,7 @@ def build_state_unit(ctx):
     ])
     pick_decl(ctx, STATEIMPL_H, "StateImpl", r"Array_<PerSubsystemInfo>\s+subsystems;", "subsystems (Array_ -> C array + length)")
     P.append("struct StateImpl {\n%s\n"
-             "  struct PerSubsystemInfo* subsystems; int subsystems_size;   /* Array_<PerSubsystemInfo> */\n"
+             "  int subsystems_size; struct PerSubsystemInfo* g_sub;   /* Array_<PerSubsystemInfo> subsystems: ghost length + GHOST element [ghost_k] */\n"
              "  struct ListOfDependents qDependents, uDependents, zDependents;   /* containers: opaque */\n};\n" % "\n".join(si_decls))
     for k, v in list(ce_init.items()):
         P.append("#define INIT_CE_%s (%s)" % (k, v))
@@ -239,7 +239,7 @@ def build_state_unit(ctx):
         def f(r):
             r.sub("exception plumbing: index check -> assertion", r"SimTK_INDEXCHECK\(", "VF_INDEXCHECK(", 1)
             r.sub("container access: .size() -> ghost length", r"\(int\)%s\.size\(\)" % arr, "self->%s_size" % arr, 1)
-            r.sub("references -> pointers (return element)", r"return %s\[(\w+)\];" % arr, r"return &self->%s[\1];" % arr, 1)
+            r.sub("container access -> contracted stub (element)", r"return %s\[(\w+)\];" % arr, r"return vf_%s_at(self, \1);" % arr, 1)
         return f
     U.fn(STATEIMPL_H, r"getCacheEntryInfo\(CacheEntryIndex index\) const\s*", "PerSubsystemInfo::getCacheEntryInfo",
          "struct CacheEntryInfo* PerSubsystemInfo_getCacheEntryInfo(const struct PerSubsystemInfo* self, int index)", x_container_get("cacheInfo"))
@@ -248,9 +248,14 @@ def build_state_unit(ctx):
     U.fn(STATEIMPL_H, r"updDiscreteVarInfo\(DiscreteVariableIndex index\)\s*", "PerSubsystemInfo::updDiscreteVarInfo",
          "struct DiscreteVarInfo* PerSubsystemInfo_updDiscreteVarInfo(struct PerSubsystemInfo* self, int index)", x_container_get("discreteInfo"))
 
+    U.fn(STATEIMPL_H, r"getSubsystem\(SubsystemIndex subx\) const\s*", "StateImpl::getSubsystem",
+         "struct PerSubsystemInfo* StateImpl_getSubsystem(const struct StateImpl* self, int subx)", x_container_get("subsystems"))
+    U.fn(STATEIMPL_H, r"updSubsystem\(SubsystemIndex subx\)\s*", "StateImpl::updSubsystem",
+         "struct PerSubsystemInfo* StateImpl_updSubsystem(struct StateImpl* self, int subx)", x_container_get("subsystems"))
+
     def x_initialize(r):
         r.sub("implicit-this call", r"\bclearAllStacks\(\)", "clearAllStacks(self)", 1)
-        r.drop("opaque payload: index-handle resets", r"\b\w+(\[j\])?\.invalidate\(\);", "", 7)
+        r.drop("opaque payload: index-handle resets", r"\b\w+(\[j\])?\.invalidate\(\);", ";", 7)
     U.fn(STATEIMPL_H, r"void initialize\(\)\s*", "PerSubsystemInfo::initialize",
          "void initialize(struct PerSubsystemInfo* self)", x_initialize, members=SS)
 
@@ -304,6 +309,56 @@ def build_state_unit(ctx):
               "ListOfDependents_notePrerequisiteChange(&self->m_dependents, stateImpl)", 1)
     U.fn(STATEIMPL_H, r"void invalidate\(const StateImpl& stateImpl\)\s*", "CacheEntryInfo::invalidate",
          "void CacheEntryInfo_invalidate(struct CacheEntryInfo* self, const struct StateImpl* stateImpl)", x_ce_invalidate, members=CE)
+
+    # ---------------- StateImpl ----------------
+    SI = ["currentSystemStage", "systemStageVersions", "qVersion", "uVersion", "zVersion", "t"]
+
+    def x_note(v):
+        def f(r):
+            r.lit("container access -> contracted stub", "%sDependents.notePrerequisiteChange(*this)" % v,
+                  "ListOfDependents_notePrerequisiteChange(&self->%sDependents, self)" % v, 1)
+        return f
+    for v in "quz":
+        U.fn(STATEIMPL_H, r"void note%sChange\(\)\s*" % v.upper(), "StateImpl::note%sChange" % v.upper(),
+             "void note%sChange(struct StateImpl* self)" % v.upper(), x_note(v), members=SI)
+    U.fn(STATEIMPL_H, r"void noteYChange\(\)\s*", "StateImpl::noteYChange", "void noteYChange(struct StateImpl* self)",
+         lambda r: r.sub("implicit-this call", r"\bnote([QUZ])Change\(\)", r"note\1Change(self)", 3), members=SI)
+
+    LOOP_IDX = "  __CPROVER_assigns(i)\n  __CPROVER_loop_invariant(0 <= i && i <= self->subsystems_size)\n  __CPROVER_decreases(self->subsystems_size - i)"
+
+    def x_subsys_loop(r, n, call_rx, call_repl, ncalls):
+        r.sub("unique index type -> int", r"SubsystemIndex i\(0\)", "int i=0", n)
+        r.sub("container access: .size() -> ghost length", r"\(int\)subsystems\.size\(\)", "self->subsystems_size", n)
+        r.sub("container access -> contracted stub (element)", call_rx, call_repl, ncalls)
+
+    def x_invsys(r):
+        x_subsys_loop(r, 2, r"subsystems\[i\]\.(clearReferencesTo\w+StageGlobals)\(\)", r"\1(vf_subsystems_at(self, i))", 2)
+        r.drop("opaque payload: pool / view clearing", r"\b\w+(\[j\])?\.(clear|unlockShape)\(\);", ";", 31)
+        r.sub("implicit-this call", r"\bnoteYChange\(\)", "noteYChange(self)", 1)
+        r.sub("Stage::prev by contract", r"\bstg\.prev\(\)", "Stage_prev(stg)", 1)
+        for k in (1, 2):
+            r.splice_loop("loop-contract:invalidateJustSystemStage#loop%d (payload loop over subsystems)" % k,
+                          r"for \(int i=0; i < self->subsystems_size; \+\+i\)", LOOP_IDX, k)
+    U.fn(STATE_CPP, r"void StateImpl::invalidateJustSystemStage\(Stage stg\)\s*", "StateImpl::invalidateJustSystemStage",
+         "void invalidateJustSystemStage(struct StateImpl* self, Stage stg)", x_invsys, members=SI)
+
+    def x_invall(r):
+        x_subsys_loop(r, 1, r"subsystems\[i\]\.invalidateStageJustThisSubsystem\(g\)", "invalidateStageJustThisSubsystem(vf_subsystems_at(self, i), g)", 1)
+        r.sub("implicit-this call", r"\binvalidateJustSystemStage\(g\)", "invalidateJustSystemStage(self, g)", 1)
+        r.splice_loop("loop-contract:invalidateAll#loop1 (ghost subsystem index)", r"for \(int i=0; i<self->subsystems_size; \+\+i\)", "LOOP_CONTRACT_INVALIDATE_ALL(self, g)", 1)
+    U.fn(STATEIMPL_H, r"void invalidateAll\(Stage g\)\s*", "StateImpl::invalidateAll",
+         "void invalidateAll(struct StateImpl* self, Stage g)", x_invall, members=SI)
+
+    def x_invcache(r):
+        r.sub("exception plumbing", r"SimTK_STAGECHECK_GE_ALWAYS\(", "VF_STAGECHECK_GE_ALWAYS(", 1)
+        r.drop("const_cast alias of this", r"StateImpl\* mthis = const_cast<StateImpl\*>\(this\);", "", 1)
+        r.sub("unique index type -> int", r"SubsystemIndex i\(0\)", "int i=0", 1)
+        r.sub("container access: .size() -> ghost length", r"\(int\)subsystems\.size\(\)", "self->subsystems_size", 1)
+        r.sub("container access -> contracted stub (element)", r"mthis->subsystems\[i\]\.invalidateStageJustThisSubsystem\(g\)", "invalidateStageJustThisSubsystem(vf_subsystems_at(self, i), g)", 1)
+        r.sub("const_cast alias of this", r"mthis->invalidateJustSystemStage\(g\)", "invalidateJustSystemStage(self, g)", 1)
+        r.splice_loop("loop-contract:invalidateAllCacheAtOrAbove#loop1 (ghost subsystem index)", r"for \(int i=0; i<self->subsystems_size; \+\+i\)", "LOOP_CONTRACT_INVALIDATE_ALL(self, g)", 1)
+    U.fn(STATEIMPL_H, r"void invalidateAllCacheAtOrAbove\(Stage g\) const\s*", "StateImpl::invalidateAllCacheAtOrAbove",
+         "void invalidateAllCacheAtOrAbove(struct StateImpl* self, Stage g)", x_invcache, members=SI)
 
     path = os.path.join(ctx.out, "state_unit.c")
     P.append('#include "%s/state_harness.h"\n' % SPEC)
